@@ -21,8 +21,10 @@ RULE = ("a case is an argparse PROGRAM (constructor keywords prefix_chars in {-,
         "(parse_args | parse_known_args) and an ARGV interleaving valid and invalid tokens of both worlds (unknown "
         "options, ill-typed values, missing values, abbreviations, --, -h). The same program is replayed on "
         "argparse.ArgumentParser with stand-in actions (copies of the real simple-parsing actions with throw-away dests). "
-        "Non-trivial = at least one user declaration and one registered dataclass and a non-empty argv; distinct by "
-        "canonical JSON. A separate stream feeds _postprocessing edited raw namespaces (missing keys, colliding keys, "
+        "(parse_args | parse_known_args | parse_intermixed_args, optionally a pre-filled namespace=); registrations may "
+        "use default=argparse.SUPPRESS, set_defaults(<dest>={...}) after add_arguments, init=False fields; half of the "
+        "command lines are valid-only, some empty. Non-trivial = at least one user declaration and one registered "
+        "dataclass; distinct by canonical JSON. A separate stream feeds _postprocessing edited raw namespaces (missing keys, colliding keys, "
         "extra keys) to reach its error branches.")
 ASSUMPTIONS = ["argparse.ArgumentParser (CPython 3.12) is the reference: its behaviour on the twin program is taken as given",
                "copy.copy of an argparse Action with another dest behaves like the original apart from where it writes",
@@ -31,20 +33,36 @@ TRUSTED = ["stdlib argparse (it is the oracle of this property)"]
 EXHAUSTIVE = {"quick": False, "thorough": False}
 THOROUGH_ROUNDS = 2   # thorough tier: this many generator passes with derived PRNG states (vcheck)
 MANIFEST = {
-    "text": ("Proof (frame theorem, full for the post-processing; engine equivalence differential). Lean theorems over the "
-             "model of parse_known_args/_postprocessing, for EVERY argparse engine and EVERY algebra of Python values: the "
-             "leftover list and the exit decision are the engine's; every namespace entry whose key is neither a dataclass "
-             "field destination nor an add_arguments destination is returned untouched (present or absent); every key of "
-             "the result is such an entry, an add_arguments destination or `subgroups`; every add_arguments destination is "
-             "present; hence no dotted key survives; simple-parsing adds no RuntimeError when the destinations are disjoint, "
-             "and a collision is refused (witness). Model tied to the code by two ops: _postprocessing called directly on "
-             "captured and edited raw namespaces, and parse_known_args/parse_args end to end with the stdlib parser "
-             "(carrying copies of the real actions) as the engine. The property itself is evaluated differentially against "
-             "argparse.ArgumentParser running the same program with stand-in options."),
+    "text": ("Proof (frame + accept theorems for the post-processing; engine equivalence SAMPLED differentially). Lean "
+             "theorems over the model of parse_known_args / parse_args / _postprocessing, for EVERY argparse engine, every "
+             "exit behaviour of the subgroup pre-parser and EVERY algebra of Python values: (decision) when the subgroup "
+             "pre-parser does not exit, simple-parsing exits exactly when the engine does, with its status, and parse_args "
+             "additionally exactly on leftovers (the full statement is refuted by a witness: open finding "
+             "help-after-bad-subgroup); (accept) on a well-formed wrapper forest with total constructors an accepted command "
+             "line yields a namespace with the engine's leftovers — no AttributeError / AssertionError / KeyError / "
+             "RuntimeError arm is taken (WellFormed is decidable and is evaluated by the driver on every accepted real run; "
+             "it excludes Optional[dataclass] fields, set_defaults on a dataclass destination and ALWAYS_MERGE, which are "
+             "covered by the correspondence check only); (frame) every entry whose key is neither a dataclass field "
+             "destination nor an add_arguments destination is returned untouched, present or absent; (keys) every key is "
+             "such an entry, an add_arguments destination or `subgroups`, every such entry is kept, every add_arguments "
+             "destination is present EXCEPT those registered with default=argparse.SUPPRESS (named exclusion NoSuppress, "
+             "witness), `subgroups` iff a subgroup field; no dotted key; no collision RuntimeError for disjoint "
+             "destinations, a collision is refused (witness). The hypotheses of the frame theorem are decided by the driver "
+             "on every accepted disjoint run. SAMPLED only (no theorem): that argparse on the user's declarations plus the "
+             "real simple-parsing actions behaves like argparse on the user's declarations plus stand-ins, i.e. every "
+             "'as argparse.ArgumentParser' clause — evaluated differentially against argparse.ArgumentParser running the "
+             "same program (groups, exclusive groups, set_defaults, parents=, prefix_chars, namespace=) with stand-in "
+             "options; the constructor / set_defaults / add_argument_group overrides are covered only this way. Scope: "
+             "parse_args and parse_known_args; parse_intermixed_args is generated and is an open finding (post-processing "
+             "runs twice), as is set_defaults(config_path=...). Model tied to the code by three ops: _postprocessing on "
+             "captured and edited raw namespaces / parser state, parse_known_args / parse_args end to end with the stdlib "
+             "parser (carrying copies of the real actions) as the engine, set_defaults keyword routing."),
     "note": ("Trusted: Lean kernel + standard axioms; stdlib argparse; the harness (program generator, twin construction, "
-             "computation of the wrapper list from the class specs). Modelled not verified: parsing.py:281-363,556-597,"
-             "775-991,1135-1161, field_wrapper.py:168-229; ALWAYS_MERGE reuse is outside the model (C11)."),
-    "technique": "Lean 4 frame theorem (any engine, any value algebra) + differential run against argparse.ArgumentParser",
+             "computation of the wrapper list from the class specs). Modelled not verified: parsing.py:281-363,385-438 "
+             "(keyword routing only),556-597,775-991,1135-1161, field_wrapper.py:168-229; ALWAYS_MERGE reuse and a "
+             "user attribute / destination called `subgroups` are outside the model (C11 / reserved name); the two KeyError "
+             "arms of the model are unreachable from real parser states and have no correspondence coverage."),
+    "technique": "Lean 4 frame + totality theorems (any engine, any value algebra) + differential run against argparse.ArgumentParser",
     "design_ref": "DESIGN.md section 5, C09",
 }
 
@@ -74,7 +92,7 @@ def cvs(v):
         return {"t": "dict", "v": {str(k): cvs(x) for k, x in v.items()}}
     if dataclasses.is_dataclass(v) and not isinstance(v, type):
         return {"t": "inst", "cls": type(v).__name__,
-                "v": {f.name: cvs(getattr(v, f.name, None)) for f in dataclasses.fields(v)}}
+                "v": {f.name: cvs(getattr(v, f.name, None)) for f in dataclasses.fields(v) if f.init}}
     return {"t": "raw", "py": type(v).__name__}
 
 
@@ -154,11 +172,18 @@ def build_classes(specs):
                         kw["default_factory"] = (lambda x: (lambda: list(x)))(pv)
                     else:
                         kw["default"] = pv
+                if f.get("init") is False:
+                    kw["init"] = False
                 if f.get("positional"):
                     fields.append((f["name"], TY[k], spfield(positional=True, **kw)))
                 else:
                     fields.append((f["name"], TY[k], dataclasses.field(**kw)))
-        classes[s["name"]] = dataclasses.make_dataclass(s["name"], fields)
+        ns = {}
+        if s.get("ctor_raises"):
+            def __post_init__(self):
+                raise ValueError("constructor of the generated class raises")
+            ns["__post_init__"] = __post_init__
+        classes[s["name"]] = dataclasses.make_dataclass(s["name"], fields, namespace=ns)
     return classes
 
 
@@ -172,15 +197,17 @@ def wrappers_of(c, chosen):
     cls = {k["name"]: k for k in c["classes"]}
     out = []
 
-    def walk(cname, dest, level, has_parent, over, opt_none):
+    def walk(cname, dest, level, has_parent, over, opt_none, suppress=False):
         spec = cls[cname]
-        w = {"dest": dest, "dests": [dest], "level": level, "has_parent": has_parent, "suppress": False,
+        w = {"dest": dest, "dests": [dest], "level": level, "has_parent": has_parent, "suppress": suppress,
              "opt_none": opt_none, "ctor": cname, "fields": []}
         out.append(w)
         later = []
         for f in spec["fields"]:
             k = f["ty"]
             fd = dest + "." + f["name"]
+            if f.get("init") is False:
+                continue            # dataclass_wrapper.py:77: no FieldWrapper for an init=False field
             if k == "dc":
                 later.append((f["cls"], fd, False))
             elif k == "optdc":
@@ -193,7 +220,7 @@ def wrappers_of(c, chosen):
                 w["fields"].append({"name": f["name"], "dest": fd, "dests": [fd], "is_subgroup": False, "init": True,
                                     "dflt": to_driver(d), "conv": conv_of(k)})
         for cn, fd, opt in later:
-            walk(cn, fd, level + 1, True, None, opt)
+            walk(cn, fd, level + 1, True, None, opt, suppress)
         for f in spec["fields"]:
             if f["ty"] == "subgroup":
                 fd = dest + "." + f["name"]
@@ -201,9 +228,24 @@ def wrappers_of(c, chosen):
                 if key in f["choices"]:
                     walk(f["choices"][key], fd, level + 1, True, None, False)
 
-    for r in c["regs"]:
-        walk(r["cls"], r["dest"], 0, False, r.get("default"), False)
+    for i, r in enumerate(c["regs"]):
+        over = dict(r.get("default") or {})
+        over.update(dc_defaults(c).get(i, {}))
+        walk(r["cls"], r["dest"], 0, False, over, False, bool(r.get("suppress")))
     return out
+
+
+def dc_defaults(c):
+    """reg index -> {field: V} given by `parser.set_defaults(<dest>={...})` AFTER add_arguments (parsing.py:402-435)"""
+    out = {}
+    for d in c["decls"]:
+        if d["k"] == "set_defaults_dc":
+            out.setdefault(d["reg"], {}).update(d["kv"])
+    return out
+
+
+def cargs0_of(c):
+    return [[c["regs"][i]["dest"], [[k, to_driver(v)] for k, v in kv.items()]] for i, kv in sorted(dc_defaults(c).items())]
 
 
 def has_subgroup(c):
@@ -261,7 +303,7 @@ def ctor_kwargs(pc):
     return kw
 
 
-def replay_decls(parser, decls, on_add_arguments=None):
+def replay_decls(parser, decls, on_add_arguments=None, drop_config_path=False):
     """apply a declaration list to a parser (real simple-parsing parser or the stdlib twin)"""
     containers = []
     for d in decls:
@@ -274,10 +316,13 @@ def replay_decls(parser, decls, on_add_arguments=None):
         elif k == "mutex":
             containers.append(tgt.add_mutually_exclusive_group(required=d.get("required", False)))
         elif k == "set_defaults":
-            parser.set_defaults(**{key: pyval(v) for key, v in d["kv"].items()})
+            parser.set_defaults(**{key: pyval(v) for key, v in d["kv"].items() if not (drop_config_path and key == "config_path")})
         elif k == "add_arguments":
             if on_add_arguments is not None:
                 on_add_arguments(d["reg"])
+        elif k == "set_defaults_dc":
+            if on_add_arguments is not None:
+                on_add_arguments(d["reg"], {key: pyval(v) for key, v in d["kv"].items()})
         else:
             raise ValueError(k)
 
@@ -303,9 +348,14 @@ def build_sp(c, classes):
         kw["parents"] = make_parents(c["parents"], True)
     parser = sp.make_parser(c["parser"].get("cfg"), **kw)
 
-    def reg(i):
+    def reg(i, dc_default=None):
         r = c["regs"][i]
+        if dc_default is not None:
+            parser.set_defaults(**{r["dest"]: dc_default})
+            return
         akw = {}
+        if r.get("suppress"):
+            akw["default"] = argparse.SUPPRESS
         if r.get("default"):
             akw["default"] = classes[r["cls"]](**{k: pyval(v) for k, v in r["default"].items()})
         if r.get("prefix"):
@@ -316,12 +366,14 @@ def build_sp(c, classes):
     return parser
 
 
-def build_twin(c, standins, keep_dest, with_parents=True):
+def build_twin(c, standins, keep_dest, with_parents=True, drop_config_path=None):
     kw = ctor_kwargs(c["parser"])
     if c.get("parents") and with_parents:
         kw["parents"] = make_parents(c["parents"], False)
     twin = argparse.ArgumentParser(**kw)
-    replay_decls(twin, c["decls"])
+    # the ENGINE twin (keep_dest) stands for `super().parse_known_args` of the real parser, whose `_defaults` never get
+    # a `config_path` key (open finding C09-set-defaults-config-path); the ORACLE twin is plain argparse
+    replay_decls(twin, c["decls"], drop_config_path=keep_dest if drop_config_path is None else drop_config_path)
     for i, a in enumerate(standins):
         a2 = copy.copy(a)
         if not keep_dest:
@@ -344,10 +396,15 @@ def outcome(fn):
     return {"o": "raise", "exc": r["exc"], "msg": r.get("msg", "")[:200]}
 
 
-def call_api(parser, api, argv):
+def call_api(parser, api, argv, namespace=None):
+    kw = {}
+    if namespace:
+        kw["namespace"] = argparse.Namespace(**{k: pyval(v) for k, v in namespace.items()})
     if api == "parse_args":
-        return parser.parse_args(list(argv))
-    return parser.parse_known_args(list(argv))
+        return parser.parse_args(list(argv), **kw)
+    if api == "parse_intermixed_args":
+        return parser.parse_intermixed_args(list(argv), **kw)
+    return parser.parse_known_args(list(argv), **kw)
 
 
 def standin_actions(c, classes, argv):
@@ -365,8 +422,25 @@ def standin_actions(c, classes, argv):
     return [], first
 
 
+def impl_set_defaults(c):
+    """op post.set_defaults: `parser.set_defaults(**kw)` on a parser carrying the registrations — which keywords reach
+    argparse's `_defaults`, and is a file read"""
+    classes = build_classes(c["classes"])
+    parser = build_sp({"parser": {}, "decls": [{"k": "add_arguments", "reg": i} for i in range(len(c["regs"]))],
+                       "classes": c["classes"], "regs": c["regs"]}, classes)
+    before = set(parser._defaults)
+    wd = [r["dest"] for r in c["regs"]]
+    kw = {k: ({} if k in wd else (("no_such_file_c09.yaml" if c["cp_truthy"] else None) if k == "config_path" else 1))
+          for k in c["kw"]}
+    r = sp.run_outcome(lambda: parser.set_defaults(**kw))
+    return {"o": r["o"], "exc": r.get("exc"), "passed": sorted(set(parser._defaults) - before),
+            "reads_file": r["o"] == "raise" and r.get("exc") == "FileNotFoundError"}
+
+
 def impl(case):
     c = case["case"]
+    if case["op"] == "post.set_defaults":
+        return impl_set_defaults(c)
     classes = build_classes(c["classes"])
     argv = c["argv"]
     obs = {}
@@ -390,7 +464,7 @@ def impl(case):
             return orig(ns)
 
         parser._postprocessing = wrapped
-        obs["sp"] = outcome(lambda: call_api(parser, c["api"], argv))
+        obs["sp"] = outcome(lambda: call_api(parser, c["api"], argv, c.get("namespace")))
         obs["raw"] = captured.get("raw")
         wr = []
         try:
@@ -406,11 +480,16 @@ def impl(case):
     obs["standins"] = [[list(a.option_strings), a.dest] for a in standins]
     obs["pre_fail"] = None if pre_fail is None else {k: pre_fail.get(k) for k in ("o", "code", "exc", "msg")}
 
-    obs["twin"] = outcome(lambda: call_api(build_twin(c, standins, keep_dest=False), c["api"], argv))
+    obs["twin"] = outcome(lambda: call_api(build_twin(c, standins, keep_dest=False), c["api"], argv, c.get("namespace")))
+
+    if has_config_path_default(c):
+        # reference for the open finding C09-set-defaults-config-path: argparse WITHOUT that one default
+        obs["twin_no_cp"] = outcome(lambda: call_api(build_twin(c, standins, keep_dest=False, drop_config_path=True),
+                                                     c["api"], argv, c.get("namespace")))
 
     if case["op"] == "post.parse":
         obs["engine"] = outcome(
-            lambda: build_twin(c, standins, keep_dest=True).parse_known_args(list(argv)))
+            lambda: call_api(build_twin(c, standins, keep_dest=True), "parse_known_args", argv, c.get("namespace")))
     else:
         # unit op: `_postprocessing` called directly on the (edited) raw namespace
         raw_ns = captured.get("ns_obj")
@@ -433,6 +512,8 @@ def impl(case):
                     d.pop(e["key"], None)
                 elif e["k"] == "set":
                     d[e["key"]] = pyval(e["v"])
+                elif e["k"] == "cargs_add":
+                    p2.constructor_arguments[e["key"]] = {}      # a stray entry: "should have one dict per wrapper"
             obs["unit_raw"] = {k: cvs(v) for k, v in d.items()}
             ns_in = argparse.Namespace(**d)
             obs["unit"] = outcome(lambda: p2._postprocessing(ns_in))
@@ -457,7 +538,7 @@ def defaults_keys(c):
     ks = []
     for d in c["decls"] + [d for ps in c.get("parents", []) for d in ps["decls"]]:
         if d["k"] == "set_defaults":
-            ks += list(d["kv"].keys())
+            ks += [k for k in d["kv"].keys() if k != "config_path"]
     return sorted(set(ks))
 
 
@@ -484,7 +565,7 @@ def decl_dest(d, prefix_chars="-"):
 
 
 def pstate(c, raw):
-    return {"wrappers": wrappers_of(c, chosen_of(raw, c)), "cargs0": [], "defaults_keys": defaults_keys(c),
+    return {"wrappers": wrappers_of(c, chosen_of(raw, c)), "cargs0": cargs0_of(c), "defaults_keys": defaults_keys(c),
             "always_merge": False}
 
 
@@ -504,17 +585,23 @@ def model_case(case, obs):
         else:
             eng, raw = {"o": "raise"}, None
         ps = pstate(c, raw)
+        pre = None
         if obs["pre_fail"] is not None:
-            # the set-up itself failed (e.g. an invalid subgroup choice): outside what the post-processing model sees
-            return {"skip": "preprocessing failed"}
-        return {"ps": ps, "engine": eng, "api": c["api"], "argv": c["argv"], "user_dests": user_dests(c),
+            if obs["pre_fail"].get("o") != "exit":
+                # declaring / setting up the parser RAISED: outside what the model of parse_known_args sees
+                return {"skip": "preprocessing failed"}
+            pre = obs["pre_fail"]["code"]      # the subgroup pre-parser exited (model parameter `pre`)
+        return {"ps": ps, "engine": eng, "api": c["api"], "argv": c["argv"], "user_dests": user_dests(c), "pre": pre,
                 "sp_dests": sorted({f["dest"] for w in ps["wrappers"] for f in w["fields"]})}
+    if case["op"] == "post.set_defaults":
+        return {"wrapper_dests": [r["dest"] for r in c["regs"]], "kw": c["kw"], "cp_truthy": c["cp_truthy"]}
     if obs["unit"]["o"] == "nosetup":
         return {"skip": "preprocessing failed"}
     raw = obs.get("unit_raw") or {}
-    ps = {"wrappers": wrappers_of(c, obs.get("unit_chosen") or {}), "cargs0": [], "defaults_keys": defaults_keys(c),
+    cargs0 = cargs0_of(c) + [[e["key"], []] for e in c.get("raw_edit", []) if e["k"] == "cargs_add"]
+    ps = {"wrappers": wrappers_of(c, obs.get("unit_chosen") or {}), "cargs0": cargs0, "defaults_keys": defaults_keys(c),
           "always_merge": False}
-    return {"ps": ps, "raw": pairs(raw)}
+    return {"ps": ps, "raw": pairs(raw), "ctor_fail": [k["name"] for k in c["classes"] if k.get("ctor_raises")]}
 
 
 def split_ns(ns):
@@ -523,12 +610,61 @@ def split_ns(ns):
     return attrs, (sub["v"] if sub is not None and sub.get("t") == "dict" else (None if sub is None else sub))
 
 
+def reachable_classes(c):
+    cls = {k["name"]: k for k in c["classes"]}
+    reach = []
+
+    def go(n):
+        if n in reach:
+            return
+        reach.append(n)
+        for f in cls[n]["fields"]:
+            if f["ty"] in ("dc", "optdc"):
+                go(f["cls"])
+            elif f["ty"] == "subgroup":
+                for v in f["choices"].values():
+                    go(v)
+
+    for r in c["regs"]:
+        go(r["cls"])
+    return [cls[n] for n in reach]
+
+
+def expect_frame(case):
+    """the hypotheses of the frame theorem (`FrameHyps`) are expected to hold on the engine's result of this case"""
+    c = case["case"]
+    return case["op"] == "post.parse" and c.get("disjoint", True) and not c.get("namespace") and c["api"] != "parse_intermixed_args"
+
+
+def expect_wf(case):
+    """… and so is `WellFormed` (the hypothesis of `c09_accept`): no Optional[dataclass] field, no set_defaults on a
+    dataclass destination"""
+    c = case["case"]
+    return (expect_frame(case) and not dc_defaults(c)
+            and not any(f["ty"] == "optdc" for k in reachable_classes(c) for f in k["fields"]))
+
+
+def order_of(ns):
+    return [k for k in ns.keys() if k != "subgroups"]
+
+
+CTOR_MSG = "constructor of the generated class raises"
+
+
 def project(case, obs):
+    if case["op"] == "post.set_defaults":
+        return {"passed": obs["passed"], "reads_file": obs["reads_file"]}
     if case["op"] == "post.parse":
         r = obs["sp"]
         if r["o"] == "ok":
             attrs, sub = split_ns(r["ns"])
-            return {"o": "ok", "attrs": attrs, "subgroups": sub, "keys": sorted(r["ns"].keys()), "rest": r["rest"]}
+            p = {"o": "ok", "attrs": attrs, "subgroups": sub, "keys": sorted(r["ns"].keys()), "rest": r["rest"],
+                 "order": order_of(r["ns"])}
+            if expect_frame(case):
+                p["frame_hyps"] = True       # the model side DECIDES the hypotheses of c09_frame on this accepted run
+            if expect_wf(case):
+                p["well_formed"] = True      # … and of c09_accept
+            return p
         if r["o"] == "exit":
             return {"o": "exit", "code": r["code"]}
         if obs["engine"]["o"] == "raise" and obs["engine"]["exc"] == r["exc"]:
@@ -539,10 +675,25 @@ def project(case, obs):
         return {"o": "unmodelled", "why": "preprocessing failed"}
     if r["o"] == "ok":
         attrs, sub = split_ns(r["ns"])
-        return {"o": "ok", "attrs": attrs, "subgroups": sub, "keys": sorted(r["ns"].keys())}
+        return {"o": "ok", "attrs": attrs, "subgroups": sub, "keys": sorted(r["ns"].keys()), "order": order_of(r["ns"])}
     if r["o"] == "exit":
         return {"o": "exit", "code": r["code"]}
+    if r["exc"] == "ValueError" and CTOR_MSG in r.get("msg", ""):
+        return {"o": "raise", "exc": "ConstructorError"}
     return {"o": "raise", "exc": r["exc"]}
+
+
+def project_model(case, mo):
+    """`frame_hyps` / `well_formed` are compared only where the case promises them (see expect_frame / expect_wf)"""
+    if not isinstance(mo, dict):
+        return mo
+    mo = dict(mo)
+    ok = mo.get("o") == "ok"
+    if not (ok and expect_frame(case)):
+        mo.pop("frame_hyps", None)
+    if not (ok and expect_wf(case)):
+        mo.pop("well_formed", None)
+    return mo
 
 
 def model_unmodelled(mo):
@@ -553,7 +704,7 @@ def model_unmodelled(mo):
 # the property itself (differential against the stdlib twin; independent of the model)
 
 
-def compare(c, spo, two, reg_dests, subgroups_used):
+def compare(c, spo, two, reg_dests, subgroups_used, optional_dests=()):
     """the clauses of the property between the simple-parsing observation and a stdlib observation"""
     fails = []
     if decision(spo) != decision(two):
@@ -573,8 +724,9 @@ def compare(c, spo, two, reg_dests, subgroups_used):
     got = set(spo["ns"])
     if got - expected:
         fails.append({"clause": "keys-unexpected", "detail": f"attributes {sorted(got - expected)} should not be in the namespace"})
-    if expected - got:
-        fails.append({"clause": "keys-missing", "detail": f"attributes {sorted(expected - got)} are missing from the namespace"})
+    if expected - got - set(optional_dests):
+        fails.append({"clause": "keys-missing",
+                      "detail": f"attributes {sorted(expected - got - set(optional_dests))} are missing from the namespace"})
     for k in got:
         if "." in k:
             fails.append({"clause": "dotted", "detail": f"dotted destination {k!r} leaked into the namespace"})
@@ -598,7 +750,9 @@ def short(o):
 
 def oracle(case, obs):
     c = case["case"]
-    if c.get("raw_edit"):
+    if case["op"] == "post.set_defaults":
+        return []       # judged end to end by the post.parse programs that call set_defaults(config_path=…)
+    if c.get("raw_edit") or any(k.get("ctor_raises") for k in c["classes"]):
         return []
     if not c.get("disjoint", True):
         # a user destination equal to an add_arguments destination: the code may refuse (RuntimeError); if it returns a
@@ -617,7 +771,46 @@ def oracle(case, obs):
             return []
         return [{"clause": "decision", "detail": f"declaring / setting up the simple-parsing parser raised {obs['pre_fail']}; "
                                                   f"argparse: {short(obs['twin'])}"}]
-    return compare(c, obs["sp"], obs["twin"], [r["dest"] for r in c["regs"]], has_subgroup(c))
+    # a destination registered with default=argparse.SUPPRESS appears only when one of its options was given
+    return compare(c, obs["sp"], obs["twin"], [r["dest"] for r in c["regs"]], has_subgroup(c),
+                   [r["dest"] for r in c["regs"] if r.get("suppress")])
+
+
+def has_config_path_default(c):
+    return any(d["k"] == "set_defaults" and "config_path" in d["kv"]
+               for prog in [c["decls"]] + [ps["decls"] for ps in c.get("parents", []) if ps.get("sp")] for d in prog)
+
+
+def _set_defaults_config_path(case, obs, fail):
+    """`set_defaults(config_path=…)` on a simple-parsing parser binds the method's own first parameter (parsing.py:385):
+    a string is opened as a config file at declaration time (FileNotFoundError …), None / other falsy values are
+    dropped — argparse stores the value under `config_path`"""
+    c = case["case"]
+    if not has_config_path_default(c):
+        return False
+    if fail.get("clause") == "decision" and obs["sp"].get("phase") == "declare" and obs["sp"]["o"] == "raise":
+        return True
+    if "twin_no_cp" not in obs:
+        return False
+    # the failure disappears when the reference is argparse without that default: the difference is exactly the
+    # swallowed keyword
+    return fail not in compare(c, obs["sp"], obs["twin_no_cp"], [r["dest"] for r in c["regs"]], has_subgroup(c),
+                               [r["dest"] for r in c["regs"] if r.get("suppress")])
+
+
+def _intermixed(case, obs, fail):
+    """parse_intermixed_args / parse_known_intermixed_args call the overridden parse_known_args twice, so the
+    post-processing runs twice: RuntimeError "Namespace should not already have a '<dest>' attribute" """
+    c = case["case"]
+    if c["api"] != "parse_intermixed_args" or not c["regs"]:
+        return False
+    if (fail.get("clause") == "decision" and obs["sp"]["o"] == "raise" and obs["sp"]["exc"] == "RuntimeError"
+            and "should not already have" in obs["sp"].get("msg", "")):
+        return True
+    # second face of the same defect: a POSITIONAL dataclass field is added lazily inside the first of the two inner
+    # parses, after argparse has looked up (and switched off) the positionals it knows — the first pass then consumes
+    # positionals / reports them missing
+    return any(f.get("positional") for k in reachable_classes(c) for f in k["fields"])
 
 
 def _help_after_bad_subgroup(case, obs, fail):
@@ -632,19 +825,56 @@ def _help_after_bad_subgroup(case, obs, fail):
             and pf.get("code") == 2 and decision(obs["sp"]) == "reject" and decision(obs["twin"]) == "exit0")
 
 
-FINDINGS = {"C09-help-after-bad-subgroup": _help_after_bad_subgroup}
+FINDINGS = {"C09-help-after-bad-subgroup": _help_after_bad_subgroup,
+            "C09-set-defaults-config-path": _set_defaults_config_path,
+            "C09-intermixed": _intermixed}
 
 
 def nontrivial(case, obs):
     c = case["case"]
-    return bool(c["regs"]) and any(d["k"] == "arg" for d in c["decls"]) and bool(c["argv"])
+    if case["op"] == "post.set_defaults":
+        return bool(c["kw"])
+    return bool(c["regs"]) and any(d["k"] == "arg" for d in c["decls"])
 
 
 def tags(case, obs):
     c = case["case"]
+    if case["op"] == "post.set_defaults":
+        return ["op:post.set_defaults", "set_defaults:" + obs["o"] + (":" + str(obs.get("exc")) if obs["o"] == "raise" else ""),
+                f"set_defaults:config_path:{'config_path' in c['kw']}"]
     t = [f"op:{case['op']}", f"api:{c['api']}", "sp:" + obs["sp"]["o"] + (str(obs["sp"].get("code", "")) if obs["sp"]["o"] == "exit" else ""),
          "twin:" + obs["twin"]["o"], f"regs:{len(c['regs'])}", f"parents:{len(c.get('parents', []))}",
          f"subgroup:{has_subgroup(c)}", f"disjoint:{c.get('disjoint', True)}"]
+    if not c["argv"]:
+        t.append("argv:empty")
+    if c.get("namespace"):
+        t.append("namespace=given")
+    for r in c["regs"]:
+        if r.get("suppress"):
+            t.append("reg:suppress" + (":absent" if obs["sp"]["o"] == "ok" and r["dest"] not in obs["sp"]["ns"] else ""))
+    if dc_defaults(c):
+        t.append("reg:set_defaults-on-dataclass-dest")
+    if any(f.get("init") is False for k in reachable_classes(c) for f in k["fields"]):
+        t.append("class-with-init-false-field")
+    if c.get("collision"):
+        t.append("collision:" + c["collision"])
+    if obs["sp"]["o"] == "ok" and c.get("disjoint", True) and case["op"] == "post.parse":
+        # cross tags: on which kinds of programs the namespace clauses were actually evaluated
+        t.append("acc")
+        if c.get("parents"):
+            t.append("acc+parents")
+        if has_subgroup(c):
+            t.append("acc+subgroup")
+        if obs["sp"]["rest"]:
+            t.append("acc+rest>0")
+        if not c["argv"]:
+            t.append("acc+argv-empty")
+        if any(d["k"] == "set_defaults" for d in c["decls"]):
+            t.append("acc+set_defaults")
+        if any(r.get("suppress") for r in c["regs"]):
+            t.append("acc+suppress")
+        depth = max((w["level"] for w in wrappers_of(c, chosen_of(obs.get("raw"), c))), default=0)
+        t.append(f"acc+depth:{depth}")
     if obs["sp"]["o"] == "exit":
         t.append("exitkind:" + str(obs["sp"].get("kind")))
     if obs["sp"]["o"] == "raise":
@@ -744,13 +974,19 @@ def gen_forest(rng, allow_subgroup=True):
             fields.insert(0, {"name": "spos", "ty": "int", "default": I(9), "positional": True})
         rng.shuffle(fields)
         fields.sort(key=lambda f: not (f["ty"] == "int" and f.get("default") is None))   # required fields first
+        if rng.random() < 0.12:
+            # a field that is not a constructor argument: no FieldWrapper, no option, nothing in the namespace
+            fields.append({"name": f"derived{ri}", "ty": "int", "default": I(5), "init": False})
         top = {"name": f"Top{ri}", "fields": fields}
         classes.append(top)
         reg = {"cls": top["name"], "dest": dests[ri]}
-        if rng.random() < 0.15 and not any(f["ty"] == "subgroup" for f in fields):
+        plain_tree = not any(f["ty"] == "subgroup" for f in fields)
+        if plain_tree and rng.random() < 0.08:
+            reg["suppress"] = True           # add_arguments(..., default=argparse.SUPPRESS)
+        elif rng.random() < 0.15 and not any(f["ty"] == "subgroup" for f in fields):
             ov = {}
             for f in fields:
-                if f["ty"] == "int" and not f.get("positional"):
+                if f["ty"] == "int" and not f.get("positional") and f.get("init") is not False:
                     ov[f["name"]] = I(rng.randint(20, 30))
             if ov:
                 reg["default"] = ov
@@ -759,7 +995,7 @@ def gen_forest(rng, allow_subgroup=True):
 
 
 OPT_POOL = [["--foo"], ["--bar"], ["-v", "--verbose"], ["-q"], ["--level"], ["--tag"], ["--baz-qux"], ["-n", "--num"],
-            ["--mode"], ["--lev2"], ["-o", "--out"]]
+            ["--mode"], ["--lev2"], ["-o", "--out"], ["--config_path"]]
 POS_POOL = ["src", "dst", "items"]
 
 
@@ -896,7 +1132,7 @@ def gen_program(rng):
                  and d.get("kw", {}).get("action", "store") in ("store", "store_const", "store_true", "store_false")]
         kv = {}
         for _ in range(rng.randint(1, 2)):
-            key = rng.choice(dests + ["extra", "extra2"])
+            key = "config_path" if ("config_path" in dests and rng.random() < 0.5) else rng.choice(dests + ["extra", "extra2"])
             kv[key] = rng.choice([I(1000), S("sd"), {"t": "none"}])
         decls.insert(rng.randint(0, len(decls)), {"k": "set_defaults", "kv": kv})
         decls = fix_order(decls)
@@ -961,7 +1197,7 @@ def value_for(rng, kw, good=True):
     return rng.choice(["val", "a b", "x", "7", "-1"]) if good else "val"
 
 
-def user_segment(rng, d, good=True):
+def user_segment(rng, d, good=True, abbrev=True):
     kw = d.get("kw", {})
     flags = d["flags"]
     pos = flags[0][0] not in "-+"
@@ -989,12 +1225,12 @@ def user_segment(rng, d, good=True):
     f = rng.choice(flags)
     if cnt == 1 and rng.random() < 0.3 and len(f) > 2:
         return [f + "=" + vals[0]]
-    if rng.random() < 0.15 and len(f) > 4 and f[:2] in ("--", "++"):
+    if abbrev and rng.random() < 0.15 and len(f) > 4 and f[:2] in ("--", "++"):
         f = f[: rng.randint(3, len(f) - 1)]  # abbreviation
     return [f] + vals
 
 
-def sp_segments(rng, c):
+def sp_segments(rng, c, abbrev=True):
     """tokens addressing the dataclass options (FLAT spelling: --<field name>)"""
     cls = {k["name"]: k for k in c["classes"]}
     segs = []
@@ -1004,6 +1240,8 @@ def sp_segments(rng, c):
             k = f["ty"]
             nm = f["name"]
             opt = ("-" if len(nm) == 1 else "--") + nm
+            if f.get("init") is False:
+                continue
             if k in ("dc", "optdc"):
                 walk(f["cls"])
             elif k == "subgroup":
@@ -1021,7 +1259,8 @@ def sp_segments(rng, c):
             elif k == "str":
                 segs.append(("sp", [opt, rng.choice(["abc", "w"])], True))
             elif k == "bool":
-                segs.append(("sp", rng.choice([[opt], ["--no" + nm], [opt, "true"], [opt, "maybe"]]), True))
+                toks = rng.choice([[opt], ["--no" + nm], [opt, "true"], [opt, "maybe"]])
+                segs.append(("sp", toks, toks[-1] != "maybe"))
             elif k == "list_int":
                 segs.append(("sp", [opt] + [str(rng.randint(0, 9)) for _ in range(rng.randint(0, 3))], True))
             elif k == "tuple_int2":
@@ -1035,7 +1274,7 @@ def sp_segments(rng, c):
     # alternative's instance — subgroup-choice behaviour (C07), outside this property.
     out = []
     for kind, toks, good in segs:
-        if kind == "sp" and toks[0].startswith("--") and len(toks[0]) > 5 and rng.random() < 0.12:
+        if abbrev and kind == "sp" and toks[0].startswith("--") and len(toks[0]) > 5 and rng.random() < 0.12:
             toks = [toks[0][: rng.randint(4, len(toks[0]) - 1)]] + toks[1:]      # abbreviation (maybe a parent's exact option)
         out.append((kind, toks, good))
     return out
@@ -1050,29 +1289,49 @@ def gen_argv(rng, c, valid_only=False):
             if d["k"] == "arg":
                 in_mutex = d.get("in") is not None and d["in"] < len(kinds) and kinds[d["in"]] == "mutex"
                 args.append((d, skip if in_mutex else 0.0))
+    chosen_member = {}
+    if valid_only:
+        # at most one member of every exclusive group, exactly one when it is required
+        pi = 0
+        for prog, _ in [(c["decls"], 0)] + [(ps["decls"], 0) for ps in c.get("parents", [])]:
+            conts = [d for d in prog if d["k"] in ("group", "mutex")]
+            for gi, g in enumerate(conts):
+                if g["k"] == "mutex":
+                    members = [d for d in prog if d["k"] == "arg" and d.get("in") == gi]
+                    if members and (g.get("required") or rng.random() < 0.5):
+                        chosen_member[(pi, gi)] = id(rng.choice(members))
+            pi += 1
+    argi = 0
+    prog_of = []
+    for pi, (prog, _) in enumerate([(c["decls"], 0)] + [(ps["decls"], 0) for ps in c.get("parents", [])]):
+        prog_of += [pi for d in prog if d["k"] == "arg"]
     for d, skip in args:
+        pi = prog_of[argi]
+        argi += 1
         pos = d["flags"][0][0] not in "-+"
-        if rng.random() < skip:
-            continue
         req = d.get("kw", {}).get("required") or (pos and d.get("kw", {}).get("nargs") in (None, "+", 2))
-        p = 0.9 if req else 0.45
+        if valid_only and skip > 0:
+            if chosen_member.get((pi, d["in"])) != id(d):
+                continue
+            req = True
+        elif rng.random() < skip:
+            continue
+        p = (1.0 if valid_only else 0.9) if req else 0.45
         if rng.random() < p:
             good = valid_only or rng.random() < 0.93
-            segs.append(user_segment(rng, d, good))
-            if not pos and rng.random() < 0.12:
-                segs.append(user_segment(rng, d, True))   # repeated option
-    for kind, toks, good in sp_segments(rng, c):
-        required_leaf = False
+            segs.append(user_segment(rng, d, good, abbrev=not valid_only))
+            if not pos and rng.random() < 0.12 and not (valid_only and skip > 0):
+                segs.append(user_segment(rng, d, True, abbrev=not valid_only))   # repeated option
+    for kind, toks, good in sp_segments(rng, c, abbrev=not valid_only):
         if rng.random() < 0.5 and (good or not valid_only):
             segs.append(toks)
-        del required_leaf
     # required dataclass leaves (no default): mostly supply them
     cls = {k["name"]: k for k in c["classes"]}
     for k in c["classes"]:
         for f in k["fields"]:
             if f["ty"] == "int" and f.get("default") is None and not f.get("positional"):
                 opt = ("-" if len(f["name"]) == 1 else "--") + f["name"]
-                if not any(s and s[0] == opt for s in segs) and rng.random() < 0.9:
+                if not any(s and s[0] == opt for s in segs) and (valid_only or rng.random() < 0.9):
                     segs.append([opt, str(rng.randint(0, 9))])
     del cls
     if not valid_only:
@@ -1166,6 +1425,22 @@ def gen_case(rng, op, kind="normal"):
          "api": rng.choice(["parse_args", "parse_known_args"]), "argv": [], "disjoint": True}
     if no_dash:
         c["api"] = "parse_known_args" if rng.random() < 0.7 else c["api"]
+    cls_by = {k["name"]: k for k in classes}
+    for i, r in enumerate(regs):
+        # parser.set_defaults(<dest>={field: value}) AFTER add_arguments: stored in parser.constructor_arguments
+        top = cls_by[r["cls"]]
+        ints = [f for f in top["fields"] if f["ty"] == "int" and f.get("default") is not None and not f.get("positional")
+                and f.get("init") is not False]
+        if ints and not r.get("suppress") and not any(f["ty"] == "subgroup" for f in top["fields"]) and rng.random() < 0.07:
+            pos = max(j for j, d in enumerate(c["decls"]) if d["k"] == "add_arguments" and d["reg"] == i)
+            c["decls"].insert(rng.randint(pos + 1, len(c["decls"])),
+                              {"k": "set_defaults_dc", "reg": i, "kv": {f["name"]: I(rng.randint(40, 49)) for f in ints[:2]}})
+    if op == "post.parse" and kind == "normal" and not no_dash:
+        r = rng.random()
+        if r < 0.03:
+            c["api"] = "parse_intermixed_args"     # third argparse entry point (open finding C09-intermixed)
+        elif r < 0.07:
+            c["namespace"] = {"pre": I(1)}         # a pre-filled namespace= object
     if kind == "parents" or (kind == "normal" and rng.random() < 0.08):
         # stdlib or simple-parsing parents; their options may be proper prefixes of dataclass options (an exact match
         # beats the abbreviation), they may carry set_defaults (for their own, the child's or undeclared dests)
@@ -1181,8 +1456,18 @@ def gen_case(rng, op, kind="normal"):
     if kind == "collision":
         c["disjoint"] = False
         dest = regs[0]["dest"]
-        how = rng.choice(["flag", "dest", "field-dest", "set_defaults-dotted", "set_defaults-dict"])
+        how = rng.choice(["flag", "dest", "field-dest", "set_defaults-dotted", "set_defaults-dict", "subgroups-dest",
+                          "subgroups-option"])
+        if has_subgroup(c) and rng.random() < 0.5:
+            how = rng.choice(["subgroups-dest", "subgroups-option"])
+        if how.startswith("subgroups-") and not has_subgroup(c):
+            how = "flag"
         c["collision"] = how
+        if how == "subgroups-dest":
+            # the add_arguments destination is literally `subgroups` (the reserved namespace attribute)
+            regs[0]["dest"] = "subgroups"
+        elif how == "subgroups-option":
+            c["decls"].append({"k": "arg", "flags": ["--subgroups"], "kw": rng.choice([{}, {"default": S("u")}])})
         if how == "flag":
             c["decls"].append({"k": "arg", "flags": ["--" + dest], "kw": rng.choice([{}, {"default": "SUPPRESS"}, {"default": I(1)}])})
         elif how == "dest":
@@ -1197,7 +1482,15 @@ def gen_case(rng, op, kind="normal"):
             c["decls"].insert(0, {"k": "set_defaults", "kv": {dest: {"t": "dict", "v": {}}}})
         else:
             c["decls"].append({"k": "set_defaults", "kv": {dest + ".zzz": I(3)}})
-    c["argv"] = gen_argv(rng, c, valid_only=(op == "post.postprocess" and rng.random() < 0.7))
+    c["argv"] = gen_argv(rng, c, valid_only=rng.random() < (0.7 if op == "post.postprocess" else 0.5))
+    if rng.random() < 0.04:
+        c["argv"] = []
+    if op == "post.postprocess" and kind == "ctor":
+        # a root class whose constructor raises: the exception must come out of _postprocessing unchanged
+        for k in classes:
+            if k["name"] == regs[0]["cls"]:
+                k["ctor_raises"] = True
+        c["raw_edit"] = [{"k": "set", "key": "plain", "v": S("u")}]
     if op == "post.postprocess" and kind == "edit":
         edits = []
         ws = wrappers_of(c, {})
@@ -1209,15 +1502,29 @@ def gen_case(rng, op, kind="normal"):
                 edits.append({"k": "del", "key": rng.choice(keys)})
             elif r < 0.6:
                 edits.append({"k": "set", "key": rng.choice([w["dest"] for w in ws]), "v": I(1)})
-            elif r < 0.8:
+            elif r < 0.75:
                 edits.append({"k": "set", "key": rng.choice(["zz.top", "user.dotted", "subgroups2", "plain"]), "v": S("u")})
+            elif r < 0.82:
+                edits.append({"k": "cargs_add", "key": rng.choice(["zz", "cfg.nowhere"])})
             elif keys:
                 key = rng.choice(keys)
                 v = rng.choice([I(5), S("s"), {"t": "none"}]) if convs[key] == "id" else rng.choice(
                     [{"t": "list", "v": [I(1), I(2)]}, {"t": "tuple", "v": [I(3), I(4)]}])
                 edits.append({"k": "set", "key": key, "v": v})
         c["raw_edit"] = edits
-    return {"op": op, "case": c}
+    out = {"op": op, "case": c}
+    if c["api"] == "parse_intermixed_args":
+        out["model"] = False      # the model covers parse_known_args / parse_args; this API is judged by the oracle only
+    return out
+
+
+def gen_set_defaults_case(rng):
+    classes, regs = gen_forest(rng, allow_subgroup=False)
+    for r in regs:
+        r.pop("suppress", None)
+    pool = ["foo", "bar", "extra", "config_path", "config_path", "level"] + [r["dest"] for r in regs]
+    kw = sorted(set(rng.sample(pool, rng.randint(1, 3))))
+    return {"op": "post.set_defaults", "case": {"classes": classes, "regs": regs, "kw": kw, "cp_truthy": rng.random() < 0.6}}
 
 
 def gen(rng, tier):
@@ -1231,7 +1538,10 @@ def gen(rng, tier):
             kind = "parents"
         yield gen_case(rng, "post.parse", kind)
     for i in range(n // 3):
-        yield gen_case(rng, "post.postprocess", "edit" if rng.random() < 0.6 else ("collision" if rng.random() < 0.3 else "normal"))
+        r = rng.random()
+        yield gen_case(rng, "post.postprocess", "edit" if r < 0.55 else ("ctor" if r < 0.62 else ("collision" if r < 0.75 else "normal")))
+    for i in range(n // 15):
+        yield gen_set_defaults_case(rng)
 
 
 # ------------------------------------------------------------------------------------------------
